@@ -5,6 +5,7 @@ import (
 	"fmt"
 	sharedConfig "lunar/shared-model/config"
 	"lunar/toolkit-core/urltree"
+	"strings"
 
 	"github.com/rs/zerolog/log"
 )
@@ -21,29 +22,26 @@ func BuildEndpointPolicyTree(
 	endpoints []sharedConfig.EndpointConfig,
 ) (*EndpointPolicyTree, error) {
 	endpointPolicyTree := newEndpointPolicyTree()
+	// Method maps by declared URL: declarations of the same URL (with different
+	// methods) share one map. A lookup of the new URL must not be used for this,
+	// it also answers with the map of a wildcard or path parameter endpoint
+	// that merely matches the new URL.
+	policiesByURL := map[string]*map[urltree.Method]EndpointPolicy{}
 	for _, endpoint := range endpoints {
 		err := checkForDuplicates(endpointPolicyTree, endpoint)
 		if err != nil {
 			return nil, err
 		}
-		var endpointPolicy *map[urltree.Method]EndpointPolicy
-		existingEndpointPolicy := endpointPolicyTree.Lookup(endpoint.URL)
-		if existingEndpointPolicy.Value != nil {
-			existingPolicy := *existingEndpointPolicy.Value
-			existingPolicy[urltree.Method(endpoint.Method)] = EndpointPolicy{
-				URL:       endpoint.URL,
-				Remedies:  endpoint.Remedies,
-				Diagnosis: endpoint.Diagnosis,
-			}
-			endpointPolicy = &existingPolicy
-		} else {
-			endpointPolicy = &map[urltree.Method]EndpointPolicy{
-				urltree.Method(endpoint.Method): {
-					URL:       endpoint.URL,
-					Remedies:  endpoint.Remedies,
-					Diagnosis: endpoint.Diagnosis,
-				},
-			}
+		urlKey := strings.Trim(endpoint.URL, "./")
+		endpointPolicy, found := policiesByURL[urlKey]
+		if !found {
+			endpointPolicy = &map[urltree.Method]EndpointPolicy{}
+			policiesByURL[urlKey] = endpointPolicy
+		}
+		(*endpointPolicy)[urltree.Method(endpoint.Method)] = EndpointPolicy{
+			URL:       endpoint.URL,
+			Remedies:  endpoint.Remedies,
+			Diagnosis: endpoint.Diagnosis,
 		}
 		err = endpointPolicyTree.InsertDeclaredURL(endpoint.URL, endpointPolicy)
 		if err != nil {
